@@ -416,7 +416,40 @@ def noneiter(prog, f, ctx=None):
     return out
 
 
-def run_ief(run, rule_prefix, roots, triage=None, noreturn=(), exclude_modules=(), use_cha=True):
+def missing_self_methods(prog, f):
+    """self.m(...) calls where no class of the family (bases, subclasses, their bases) defines or assigns m."""
+    owner = prog.owner_class(f)
+    if owner is None or isinstance(f.node, ast.Lambda):
+        return []
+    fam = set(prog.mro(owner.qn)) | prog.subclasses(owner.qn)
+    for k in list(fam):
+        fam |= set(prog.mro(k))
+    avail = set()
+    for k in fam:
+        c = prog.classes.get(k)
+        if c is None:
+            continue
+        if any(b is None for b in c.bases) and any(e not in ('object',) for e in c.base_exprs):
+            return []          # external base class: its methods are unknown
+        if '__getattr__' in c.methods:
+            return []
+        avail |= c.attrs_assigned | set(c.methods)
+        for b in c.node.body:
+            if isinstance(b, ast.Assign):
+                avail |= {t.id for t in b.targets if isinstance(t, ast.Name)}
+        for m in c.methods.values():
+            src = ast.unparse(m.node)
+            if '__dict__' in src or 'setattr(' in src:
+                return []
+    out = []
+    for n in prog.own_nodes(f):
+        if isinstance(n, ast.Call) and isinstance(n.func, ast.Attribute) and isinstance(n.func.value, ast.Name) and n.func.value.id == 'self' \
+                and n.func.attr not in avail and not n.func.attr.startswith('__'):
+            out.append((n, n.func.attr))
+    return out
+
+
+def run_ief(run, rule_prefix, roots, triage=None, noreturn=(), exclude_modules=(), use_cha=True, selfattr=False):
     """Evaluate the four IEF sub-rules on everything reachable from roots.
 
     One obligation per (function, sub-rule); violated obligations are keyed by
@@ -456,6 +489,9 @@ def run_ief(run, rule_prefix, roots, triage=None, noreturn=(), exclude_modules=(
                     and node.func.attr not in prog._bymeth:
                 probs.append(('DENYAPI', node.func.attr, node,
                               '.%s() exists neither on Python 3 dicts nor on pandas >= 2 objects: AttributeError when this line runs' % node.func.attr))
+        if selfattr:
+            for node, nm in missing_self_methods(prog, f):
+                probs.append(('NOMETHOD', nm, node, 'self.%s(...) is called but no class in the hierarchy defines %s: AttributeError when this line runs' % (nm, nm)))
         for ctx, key in fns[qn]:
             for call, g, msg in arity(prog, f, ctx):
                 probs.append(('ARITY', norm(call)[:60], call, 'call cannot bind: ' + msg))
